@@ -307,7 +307,7 @@ func (m *modInfo) runArgs(dir string, extra ...string) []string {
 
 // single run; exit code and result
 func (m *modInfo) run(dir string, env []string, extra ...string) (RunResult, childOut) {
-	co := runChild(60*time.Second, env, m.runArgs(dir, extra...)...)
+	co := runChild(240*time.Second, env, m.runArgs(dir, extra...)...)
 	return co.Results[0], co
 }
 
@@ -918,13 +918,21 @@ func (m *modInfo) runPlants(label string, ps []plant) []plantRes {
 				jf := filepath.Join(base, fmt.Sprintf("jobs-%d-%d.json", w, batch[0].ID))
 				jb, _ := json.Marshal(batch)
 				os.WriteFile(jf, jb, 0o600)
-				co := runChild(time.Duration(30+5*len(batch))*time.Second, nil, "-child", "batch", "-modfile", m.Path, "-kind", m.Kind, "-jobs", jf)
+				budget := time.Duration(60+10*len(batch)) * time.Second
+				if len(batch) == 1 {
+					budget = 300 * time.Second // a single job normally takes well under a second
+				}
+				co := runChild(budget, nil, "-child", "batch", "-modfile", m.Path, "-kind", m.Kind, "-jobs", jf)
 				mu.Lock()
 				rest := []Job{}
 				for _, j := range batch {
 					if r, ok := co.Results[j.ID]; ok {
 						out[j.ID].RunResult = r
 						out[j.ID].Done = true
+					} else if j.ID == co.Begun && co.Killed && len(batch) > 1 {
+						// the batch ran out of its time budget while this job was running (possibly only because the
+						// machine is loaded): never a verdict — the job is re-run alone with a generous budget
+						rest = append(rest, j)
 					} else if j.ID == co.Begun {
 						out[j.ID].Done = true
 						out[j.ID].Crashed = !co.Killed
@@ -935,7 +943,15 @@ func (m *modInfo) runPlants(label string, ps []plant) []plantRes {
 					}
 				}
 				mu.Unlock()
-				if len(rest) > 0 && len(rest) < len(batch) {
+				if len(rest) > 0 && co.Killed && len(batch) > 1 {
+					// re-run the interrupted job alone, the untouched ones together
+					pending.Add(1)
+					queue <- rest[:1]
+					if len(rest) > 1 {
+						pending.Add(1)
+						queue <- rest[1:]
+					}
+				} else if len(rest) > 0 && len(rest) < len(batch) {
 					pending.Add(1)
 					queue <- rest
 				} else if len(rest) > 0 {
